@@ -213,3 +213,27 @@ func vh_C19_L3_armed_duration() {
 	vassert(obs.timeouts == 4 && obs.failures == 0, "T3-style timer retransmits for as long as it lives")
 	vcover("end")
 }
+
+// C19.L3c: a timer that expired k times, was stopped and is started again waits one RTO
+// again (not RTO*2^k). The armed duration is a ghost value in the engine; in a native
+// violation replay it is measured on the wall clock (vTimerWait).
+func vh_C19_L3_restart_resets_backoff() {
+	obs := &vRtxObserver{inOrderOK: true}
+	t := newRTXTimer(2, obs, 0, 100000)
+	const rto = 100 // ms
+	vassert(t.start(rto), "start")
+	k := 1 + vPick(3)
+	expect := time.Duration(rto) * time.Millisecond
+	for i := 0; i < k; i++ {
+		d := vTimerWait(t, expect)
+		vassert(d >= expect/2 && d < 2*expect, "each expiry waits the doubled timeout")
+		expect *= 2
+	}
+	t.stop()
+	vassert(t.start(rto), "restart")
+	d := vTimerWait(t, time.Duration(rto)*time.Millisecond)
+	vassert(d < 2*time.Duration(rto)*time.Millisecond, "after a restart the first expiry waits one RTO again")
+	vassert(obs.timeouts == k+1 && obs.failures == 0, "every expiry reached the observer")
+	t.close()
+	vcover("end")
+}
